@@ -644,6 +644,14 @@ def run_check(prop, tier, seed, replay):
                 for sc in shapes.generate(seed, 18 if tier == "quick" else 150):
                     f.write(json.dumps(sc) + "\n")
             script_files.append(("shapes", pth, 12))
+        # 3c. systematic scenario templates for the consuming APIs (tools/scenarios.py)
+        if "consume" in P["fams"]:
+            import scenarios
+            pth = os.path.join(wd, "scenarios.ndjson")
+            with open(pth, "w") as f:
+                for sc in scenarios.generate():
+                    f.write(json.dumps(sc) + "\n")
+            script_files.append(("scenarios", pth, 4))
         # 4. committed witnesses of repaired / known defects
         fdir = os.path.join(VERIF, "findings")
         if os.path.isdir(fdir):
